@@ -102,7 +102,7 @@ static void op_dns_build(vin_t *in) {
 	uint16_t id = vin_u16(in);
 	dns_hdr_flags_t fl;
 	uint32_t bufsize;
-	uint8_t fill, *buf;
+	uint8_t fill, *buf, do_parse;
 	size_t find_len, msg_size = 0, nops, i;
 	uint8_t *find;
 	dns_hdr_p hdr;
@@ -116,6 +116,7 @@ static void op_dns_build(vin_t *in) {
 	fill = vin_u8(in);
 	find = dup_blob(in, &find_len);
 	nops = vin_u16(in);
+	do_parse = vin_u8(in);
 	buf = vx_alloc(bufsize, fill);
 	hdr = (dns_hdr_p)buf;
 
@@ -166,8 +167,8 @@ static void op_dns_build(vin_t *in) {
 	}
 	vout_u64(&O, msg_size);
 	vout_blob(&O, buf, bufsize);
-	vout_u8(&O, msg_size <= bufsize ? 1 : 0);
-	if (msg_size <= bufsize) {
+	vout_u8(&O, (do_parse && msg_size <= bufsize) ? 1 : 0);
+	if (do_parse && msg_size <= bufsize) {
 		uint8_t *msg = vx_dup(buf, msg_size);
 		dns_parse_back(msg, msg_size, find, find_len);
 		vx_free(msg, msg_size);
